@@ -92,6 +92,7 @@ def old_cases(rng, tier):
     out = []
     cols, rows = 8, 6
     styles = [("block", "other"), ("block", "kitty"), ("kitty", "kitty"), ("kitty", "kitty-old"),
+              ("kitty", "kitty-0250"),
               ("kitty", "konsole"), ("iterm2", "iterm2"), ("iterm2", "wezterm"), ("iterm2", "konsole")]
     for style, ident in styles:
         for rw, rh in [(1, 1), (2, 1), (3, 2), (2, 3), (4, 4)]:
@@ -140,8 +141,9 @@ def header(case, res):
         else:
             inner = dict(inner="gfx", last=0, color=[0, 0, 0])
     fill_empty = case["api"] == "new" and case["pad"].get("fill", " ") == ""
+    nostack = case["api"] == "old" and case.get("style") == "kitty" and case["ident"].startswith("kitty")
     return dict(cols=cols, rows=rows, r0=case["r0"], pw=pw, ph=ph, l=l, t=t, rw=rw, rh=rh,
-                fill_empty=fill_empty, mode="clean", outcome=res["outcome"], expect="ok", attrs_equal=res["attrs_equal"],
+                fill_empty=fill_empty, nostack=nostack, mode="clean", outcome=res["outcome"], expect="ok", attrs_equal=res["attrs_equal"],
                 fin=res["fin"], state_same=res["state_same"], **inner)
 
 
